@@ -165,6 +165,20 @@ def _plot(fn):
 for _sc in ('linear', 'log', 'logicle'):
     CALLS['plot.hist1d(%s)' % _sc] = (_plot((lambda sc: (lambda s, a: FlowCal.plot.hist1d(s + 1, channel=s.channels[2], xscale=sc, bins=16)))(_sc)), True, False)
     CALLS['plot.density2d(%s,bins list)' % _sc] = (_plot((lambda sc: (lambda s, a: FlowCal.plot.density2d(s + 1, channels=a['chs2'], bins=a['bins2'], xscale=sc, yscale=sc, mode='scatter')))(_sc)), True, False)
+
+
+def _may_refuse(f):
+    # an option combination the library may refuse: a refusal is an answer too, and the caller's objects are compared either way
+    def g(s, a):
+        try:
+            return f(s, a)
+        except (ValueError, TypeError):
+            return None
+    return g
+
+
+CALLS['plot.hist1d(normed_height,weights)'] = (_plot(_may_refuse(lambda s, a: FlowCal.plot.hist1d(s + 1, channel=s.channels[2], xscale='linear', bins=16, normed_height=True,
+                                                                                                 weights=a['weights']))), True, False)
 CALLS['plot.hist1d(list,bins arr)'] = (_plot(lambda s, a: FlowCal.plot.hist1d(a['pops_full'], channel=1, bins=a['edges'], xscale='linear')), True, False)
 # logarithmic axes with the caller's own edge arrays starting at zero (one array per axis, and one array for both)
 CALLS['plot.density2d(log,edge arrays from 0)'] = (_plot(lambda s, a: FlowCal.plot.density2d(s + 1, channels=a['chs2'], bins=a['edges2_zero'], xscale='log', yscale='log', mode='scatter')), True, False)
@@ -233,6 +247,7 @@ def build_args(s, rng, floaty):
         'beads_pos': s + 1, 'cparams_scale': {'scale': 'log'}, 'selparams_empty': {'n_std_low': 0., 'n_std_high': 0.}, 'fc_none': [None, 'tab:red'], 'ec_none': [None, None],
         'seg_path': _segment_file(), 'seg_widths': [8, 16], 'seg_ranges': [1024., 65536.], 'seg_ranges_arr': np.array([1024., 65536.]),
         'fparams': {}, 'dparams': {'mode': 'scatter', 'bins': [8, 8]}, 'hparams': [{'bins': 8}, {'bins': 8}],
+        'weights': np.linspace(1.0, 3.0, N),
     }
 
 
